@@ -248,6 +248,13 @@ async fn run_actor(i: usize, b: Value, h: i64, t: i64) -> anyhow::Result<Value> 
             }
             _ => {}
         }
+        // real clock: the time-outs are H (T) ticks minus half a tick, so the model's verdict about an instance's age is the
+        // code's only while every operation of a tick runs within the first part of that tick.  When the process fell
+        // behind its schedule (a loaded machine) the rest of the behaviour says nothing: it is abandoned, not judged.
+        let into_tick = t0.elapsed().as_millis() as i64 - ticks * UNIT_MS;
+        if into_tick > UNIT_MS / 2 - 40 {
+            return Ok(json!({"kind":"result","i":i,"ok":true,"inconclusive":format!("schedule slipped: {} ms into tick {} at step {}", into_tick, ticks, k)}));
+        }
         let d: Value = serde_json::from_str(&addr.send(hooks::DumpNaming).await?)?;
         if let Some(e) = check_actor_invariants(&d) {
             return Ok(mismatch(i, k, "registry bookkeeping does not match the instances", json!("invariant"), json!(e)));
